@@ -419,7 +419,41 @@ func c20Run(input string) string {
 	} else {
 		return holder + "|vparray-error"
 	}
-	return holder + "|ok " + strings.Join(ids, ",")
+	// the holder-side report of what matches (MatchSubmissionRequirement): per requirement node, in pre-order, every
+	// descriptor of the node with ALL credentials that satisfy it
+	msr := "-"
+	if !v2 {
+		if reqs, err := pd.MatchSubmissionRequirement(creds, c20Loader); err != nil {
+			msr = "err"
+		} else {
+			var nodes []string
+			var walk func(r *presexch.MatchedSubmissionRequirement)
+			walk = func(r *presexch.MatchedSubmissionRequirement) {
+				var ds []string
+				for _, d := range r.Descriptors {
+					var cs []string
+					for _, vc := range d.MatchedVCs {
+						cid := "tmp"
+						if i := strings.Index(vc.ID, "urn:cred:"); i >= 0 {
+							cid = vc.ID[i+len("urn:cred:"):]
+						}
+						cs = append(cs, cid)
+					}
+					sort.Strings(cs)
+					ds = append(ds, d.ID+"="+strings.Join(cs, "+"))
+				}
+				nodes = append(nodes, strings.Join(ds, ","))
+				for _, n := range r.Nested {
+					walk(n)
+				}
+			}
+			for _, r := range reqs {
+				walk(r)
+			}
+			msr = strings.Join(nodes, ";")
+		}
+	}
+	return holder + "|ok " + strings.Join(ids, ",") + "|msr " + msr
 }
 
 func c20GenReq(r *Rng, depth int) string {
